@@ -31,9 +31,11 @@ def isUnknown (c : Card) : Bool := c.rank == Rank.unknown || c.suit == Suit.unkn
 /-- `Card.__bool__` -/
 def known (c : Card) : Bool := !c.isUnknown
 
+/-- `Card.__repr__` as characters -/
+def reprChars (c : Card) : List Char := [rankChars.getD c.rank '!', suitChars.getD c.suit '!']
+
 /-- `Card.__repr__` -/
-def repr (c : Card) : String :=
-  String.ofList [rankChars.getD c.rank '!', suitChars.getD c.suit '!']
+def repr (c : Card) : String := String.ofList (reprChars c)
 
 def reprs (cs : List Card) : String := String.join (cs.map repr)
 
@@ -82,8 +84,12 @@ def replace10 : List Char → List Char
   | c :: rest => c :: replace10 rest
   | [] => []
 
+/-- `str.isspace()` for one character: the separators of `str.split()` -/
 def isPyWhitespace (c : Char) : Bool :=
-  c == ' ' || c == '\t' || c == '\n' || c == '\r' || c == '\x0b' || c == '\x0c'
+  c == ' ' || c == '\t' || c == '\n' || c == '\r' || c == '\x0b' || c == '\x0c' ||
+  c == '\x1c' || c == '\x1d' || c == '\x1e' || c == '\x1f' || c == '\x85' || c == '\xa0' ||
+  c == '\u1680' || ('\u2000' ≤ c && c ≤ '\u200a') || c == '\u2028' || c == '\u2029' ||
+  c == '\u202f' || c == '\u205f' || c == '\u3000'
 
 /-- python `str.split()` on a char list -/
 def splitWs (cs : List Char) : List (List Char) :=
@@ -103,17 +109,34 @@ def parsePairs : List Char → Option (List Card)
     | some r, some s, some cs => some (⟨r, s⟩ :: cs)
     | _, _, _ => none
 
+/-- one whitespace-separated chunk: even length, read two characters at a time -/
+def parseChunk (acc : Option (List Card)) (chunk : List Char) : Option (List Card) :=
+  match acc with
+  | none => none
+  | some l =>
+    if chunk.length % 2 != 0 then none
+    else match parsePairs chunk with
+      | some cs => some (l ++ cs)
+      | none => none
+
+/-- `list(Card.parse(s))` on the characters of `s`; `none` = ValueError -/
+def Card.parseChars (s : List Char) : Option (List Card) :=
+  (splitWs ((replace10 s).filter (· != ','))).foldl parseChunk (some [])
+
 /-- `list(Card.parse(s))`; `none` = ValueError -/
-def Card.parse (s : String) : Option (List Card) :=
-  let cs := (replace10 s.toList).filter (· != ',')
-  (splitWs cs).foldl (fun acc chunk =>
-    match acc with
-    | none => none
-    | some l =>
-      if chunk.length % 2 != 0 then none
-      else match parsePairs chunk with
-        | some cs => some (l ++ cs)
-        | none => none) (some [])
+def Card.parse (s : String) : Option (List Card) := Card.parseChars s.toList
+
+/-- `CardsLike`: a card object, text, or an iterable of card objects -/
+inductive CardsLike where
+  | card (c : Card)
+  | text (s : String)
+  | cards (l : List Card)
+
+/-- `Card.clean(values)`; `none` = ValueError from the text branch -/
+def Card.clean : CardsLike → Option (List Card)
+  | .card c => some [c]
+  | .text s => Card.parse s
+  | .cards l => some l
 
 /-! ### predicates on card lists -/
 def dedup [BEq α] (l : List α) : List α :=
